@@ -4,8 +4,10 @@ usage: eval_mutation.py <Cxx> <k>     (reads /tmp/out_Cxx/mutation<k>.diff, demo
 Writes /verif/seeded/<Cxx>-<k>/{patch.diff,demo_test.go,notes.md,meta.json}."""
 import json, os, re, subprocess, sys, shutil
 pid, k = sys.argv[1], sys.argv[2]
-out = f"/tmp/out_{pid}"
-wt = f"/tmp/wt_{pid}"
+rnd = sys.argv[3] if len(sys.argv) > 3 else "1"   # round: 1 → /tmp/out_Cxx, /tmp/wt_Cxx ; 2 → /tmp/out2_Cxx, /tmp/wt2_Cxx
+sfx = "" if rnd == "1" else rnd
+out = f"/tmp/out{sfx}_{pid}"
+wt = f"/tmp/wt{sfx}_{pid}"
 env = dict(os.environ, GOFLAGS="-mod=mod", GOPROXY="off", GOSUMDB="off", GOTOOLCHAIN="local")
 def sh(cmd, cwd=None, timeout=1800):
     p = subprocess.run(cmd, shell=True, cwd=cwd, env=env, capture_output=True, text=True, timeout=timeout)
@@ -66,7 +68,8 @@ meta["caught_by"] = caught
 meta["caught_by_own_property"] = pid in caught
 valid = meta["patch_applies"] and meta["builds"] and meta["demo_without_change"] == "pass" and meta["demo_with_change"] == "fail" and not missing
 meta["confirmed_valid"] = valid
-d = f"/verif/seeded/{pid}-{k}"
+d = f"/verif/seeded/{pid}-{k}" if rnd == "1" else f"/verif/seeded/{pid}-r{rnd}-{k}"
+meta["round"] = int(rnd)
 os.makedirs(d, exist_ok=True)
 shutil.copy(patch, f"{d}/patch.diff"); shutil.copy(demo, f"{d}/demo_test.go")
 if os.path.exists(f"{out}/notes{k}.md"): shutil.copy(f"{out}/notes{k}.md", f"{d}/notes.md")
